@@ -433,7 +433,7 @@ impl<const BITS: usize, const LIMBS: usize> TryFrom<u128> for Uint<BITS, LIMBS> 
         limbs[0] = value as u64;
         limbs[1] = (value >> 64) as u64;
         if Self::LIMBS == 2 && limbs[1] > Self::MASK {
-            limbs[1] %= Self::MASK;
+            limbs[1] &= Self::MASK;
             Err(ToUintError::ValueTooLarge(BITS, Self::from_limbs(limbs)))
         } else {
             Ok(Self::from_limbs(limbs))
